@@ -148,7 +148,7 @@ void dominance(G g, typename G::node_t entry, VectorMap &df) {
       // dominates n.
       node_t runner = source(e, g);
       while (runner != boost::graph_traits<G>::null_vertex() &&
-             runner != idom[n] && runner != n) {
+             runner != idom[n]) {
         if (std::find(df[runner].begin(), df[runner].end(), n) ==
             df[runner].end())
           df[runner].push_back(n);
